@@ -164,7 +164,7 @@ fn piece() -> impl Strategy<Value = u32> {
     ]
 }
 
-fn strategy() -> impl Strategy<Value = Case> {
+pub fn strategy() -> impl Strategy<Value = Case> {
     (prop::collection::vec(piece(), 0..24), 0u8..3, 0u8..4).prop_map(|(pieces, source, clones)| Case { pieces, source, clones })
 }
 
